@@ -27,6 +27,10 @@ REQUIRED = ["DaeVerif.C03.Props." + n for n in (
     "wan_new_udp_becomes_tracked", "dns_tuples_never_hold_a_decision", "handover_without_redirect_room_drops",
     "handoff_full_behaviour", "janitor_respects_idle_timeouts", "aggressive_janitor_halves_timeouts",
     "sticky_decision_janitor",
+    # phase 2: the consumers of the hand-over (dae0peer / dae0 programs, the relay's record lookup), the observing hooks
+    "dae0peer_accepts_exactly_the_handed_over_frames", "dae0peer_assigns_listener_of_protocol_and_family",
+    "dae_reply_returns_where_the_flow_came_from", "dae0_ingress_parse_path_independent", "reverse_hooks_only_observe",
+    "udp_relay_record_is_at_most_cache_ttl_old", "tcp_relay_record_is_the_kernel_record",
     # composition with C02 (route() over the installed bytes) and C01 (first matching rule): Compose.lean
     "lan_new_tcp_connection_follows_userspace", "lan_new_tcp_connection_follows_first_match",
     "lan_new_udp_flow_follows_first_match",
@@ -71,6 +75,95 @@ def bpf2go_padding(ctx, fake):
     outp = os.path.join(ctx.out, "bpf_fake_c03_padded.go")
     open(outp, "w").write(txt)
     return {dst: outp}
+
+
+def _block(lines, start):
+    """[start, end) of the gofmt'd brace block opened on lines[start] (ends with '{'): up to the line that closes it at the
+    same indentation"""
+    ind = len(lines[start]) - len(lines[start].lstrip("\t"))
+    for j in range(start + 1, len(lines)):
+        l = lines[j]
+        if l.strip() and len(l) - len(l.lstrip("\t")) == ind and l.lstrip("\t").startswith("}") and not l.rstrip().endswith("{"):
+            return start, j + 1
+    raise ValueError("unterminated block at line %d" % (start + 1))
+
+
+def _dedent(ls, n):
+    return [l[n:] if l.startswith("\t" * n) else l.lstrip("\t") for l in ls]
+
+
+def consumer_glue(ctx):
+    """The userspace CONSUMERS of the hand-over record, regenerated from /repo's current source as callable functions of
+    package control (the statements are copied verbatim; only the surrounding closure is new):
+      * verifC03TcpRecord  = the head of ControlPlane.handleConn (tcp.go): address convergence, the retried
+        RetrieveRoutingResult and the ErrKeyNotExist fallback, up to the point where `routingResult` is final;
+      * verifC03UdpRecord  = from the UDP ingress task of control_plane.go: flow classification, the per-endpoint routing
+        cache probe, RetrieveRoutingResult with its error switch, [handlePkt is replaced by recording the record it would
+        receive], the cache update.
+    Returns an overlay dict or None (TRANSLATOR-FAILED)."""
+    try:
+        tcp = open(os.path.join(REPO, "control", "tcp.go")).read().split("\n")
+        i = next(k for k, l in enumerate(tcp) if l.startswith("func (c *ControlPlane) handleConn("))
+        sig = tcp[i]
+        if "(ctx context.Context, lConn net.Conn) (err error)" not in sig:
+            raise ValueError("handleConn signature changed: " + sig)
+        a = next(k for k in range(i, i + 40) if tcp[k].startswith("\tsrc := "))
+        b = next(k for k in range(a, a + 40) if tcp[k].startswith("\tif err != nil {"))
+        _, e = _block(tcp, b)
+        tcp_body = tcp[a:e]
+        if not any("RetrieveRoutingResult(" in l for l in tcp_body):
+            raise ValueError("handleConn head no longer calls RetrieveRoutingResult")
+
+        cp = open(os.path.join(REPO, "control", "control_plane.go")).read().split("\n")
+        t = next(k for k, l in enumerate(cp) if l.strip() == "var freshRoutingResult *bpfRoutingResult")
+        # prefix: convergeSrc / flowDecision, the statements before `task := func() {`
+        tk = next(k for k in range(t, t - 40, -1) if cp[k].strip() == "task := func() {")
+        cs = next(k for k in range(tk, tk - 40, -1) if cp[k].strip().startswith("convergeSrc := "))
+        ind0 = len(cp[cs]) - len(cp[cs].lstrip("\t"))
+        prefix = [l for l in _dedent(cp[cs:tk], ind0) if not l.strip().startswith("//")]
+        A = next(k for k in range(t, len(cp)) if cp[k].strip() == "if !c.udpRouteScopeSensitive {")
+        ind = len(cp[A]) - len(cp[A].lstrip("\t"))
+        _, Ae = _block(cp, A)
+        B = next(k for k in range(Ae, Ae + 5) if cp[k].strip() == "if routingResult == nil {")
+        _, Be = _block(cp, B)
+        H = next(k for k in range(Be, Be + 6) if "c.handlePkt(" in cp[k] and "routingResult" in cp[k])
+        _, He = _block(cp, H)
+        C = next(k for k in range(He, He + 6) if cp[k].strip() == "if !c.udpRouteScopeSensitive && freshRoutingResult != nil {")
+        _, Ce = _block(cp, C)
+        between = [l for l in cp[Ae:B] + cp[Be:H] + cp[He:C] if l.strip() and not l.strip().startswith("//")]
+        if between:
+            raise ValueError("unexpected statements between the extracted UDP blocks: %r" % between[:3])
+        handle_args = re.search(r"c\.handlePkt\(([^)]*)\)", cp[H]).group(1)
+        if [x.strip() for x in handle_args.split(",")][2:5] != ["convergeSrc", "realDst", "routingResult"]:
+            raise ValueError("handlePkt call changed: " + cp[H].strip())
+        blkA, blkB, blkC = (_dedent(cp[x:y], ind - 2) for x, y in ((A, Ae), (B, Be), (C, Ce)))
+    except (StopIteration, ValueError, AttributeError, OSError) as ex:
+        ctx.say(f"TRANSLATOR-FAILED consumer glue (handleConn head / UDP ingress task not extractable): {ex!r}")
+        return None
+    out = ["// Code generated by checks/c03.py from control/tcp.go and control/control_plane.go. DO NOT EDIT.", "",
+           "package control", "", "import (", '\t"context"', '\tstderrors "errors"', '\t"fmt"', '\t"net"', '\t"net/netip"', "",
+           '\t"github.com/cilium/ebpf"', '\t"github.com/daeuniverse/dae/common"', '\t"github.com/daeuniverse/dae/common/consts"',
+           '\t"github.com/sirupsen/logrus"', '\t"golang.org/x/sys/unix"', ")", "",
+           "var _ = fmt.Sprint", "var _ = stderrors.Is", "var _ = ebpf.ErrKeyNotExist", "var _ = common.ConvergeAddrPort",
+           "var _ = consts.IPPROTO_TCP", "var _ = logrus.DebugLevel", "var _ = unix.IPPROTO_UDP", "var _ net.Conn", "",
+           "// head of handleConn: which record the TCP relay works with",
+           "func (c *ControlPlane) verifC03TcpRecord(ctx context.Context, lConn net.Conn) (out *bpfRoutingResult, outErr error) {",
+           "\toutErr = func() (err error) {"]
+    out += ["\t" + l for l in tcp_body]
+    out += ["\t\tout = routingResult", "\t\treturn nil", "\t}()", "\treturn", "}", "",
+            "// UDP ingress task: which record handlePkt receives (nil, false: the datagram is dropped before handlePkt)",
+            "func (c *ControlPlane) verifC03UdpRecord(src, realDst netip.AddrPort, pktBuf []byte) (used *bpfRoutingResult, fresh bool, delivered bool) {"]
+    out += ["\t" + l for l in prefix]
+    out += ["\tfunc() {", "\t\tvar routingResult *bpfRoutingResult", "\t\tvar freshRoutingResult *bpfRoutingResult"]
+    out += blkA + blkB
+    out += ["\t\tused, fresh, delivered = routingResult, freshRoutingResult != nil, true"]
+    out += blkC
+    out += ["\t}()", "\treturn", "}", ""]
+    outp = os.path.join(ctx.out, "c03_consumer_glue.go")
+    open(outp, "w").write("\n".join(out))
+    rc, o, _ = sh(["gofmt", "-l", outp], timeout=60)
+    ctx.log.write(f"consumer glue: tcp.go:{a+1}-{e}, control_plane.go:{cs+1}-{tk}, {A+1}-{Ae}, {B+1}-{Be}, {C+1}-{Ce} -> {outp}\n")
+    return {os.path.join(REPO, "control", "zz_verif_c03_consumer_glue.go"): outp}
 
 
 DIAG = re.compile(r" (ck=\[[^\]]*\]|ev=\[[^\]]*\]|ovf=\S+)")
@@ -139,7 +232,7 @@ def run(ctx):
         if seen_kinds[kind] <= 4:  # a handful of replays per kind of disagreement is enough
             pending.append((prio, len(pending), what, replay, key))
 
-    ctx.prove(["DaeVerif.C03.Props", "DaeVerif.C03.Compose"], ["DaeVerif.C03.Props"], ["DaeVerif/C03/*.lean"], extra_targets=["c03drv"])
+    ctx.prove(["DaeVerif.C03.Props", "DaeVerif.C03.Compose", "DaeVerif.C03.Consumer", "DaeVerif.C03.Dae0Props"], ["DaeVerif.C03.Props"], ["DaeVerif/C03/*.lean"], extra_targets=["c03drv"])
     ctx.required_theorems(REQUIRED)
 
     # ---- native build of /repo's CURRENT tproxy.c (unmodified; #included by the driver)
@@ -158,7 +251,10 @@ def run(ctx):
         return 2
 
     fake = bpf2go_padding(ctx, ctx.fake_bpf_overlay())
-    binp = fake and ctx.go_test_build("control", ["control/c03_test.go"], "c03", tags="", extra_overlay=fake)
+    glue = consumer_glue(ctx)
+    if fake and glue:
+        fake = dict(fake, **glue)
+    binp = fake and glue and ctx.go_test_build("control", ["control/c03_test.go"], "c03", tags="", extra_overlay=fake)
     if not binp:
         return 2
     rc, out = ctx.run_harness(binp, "TestVerifC03Gen")
@@ -190,6 +286,7 @@ def run(ctx):
         return 2
 
     n_frames = n_parse = n_retr = n_retr_skipped = n_const = n_twin_frames = n_diag_diffs = n_jan = n_jan_deleted = 0
+    n_use = n_use_skipped = n_use_cached = n_peer = n_peer_ok = n_d0 = n_d0_redirect = 0
     distinct = set()
     verdicts = collections.Counter()
     branch = collections.Counter()
@@ -210,8 +307,26 @@ def run(ctx):
             continue
         merged = []
         skip = set()
+        use_desync = False
         for i, op in enumerate(ops):
             kind = op.split(" ", 1)[0]
+            if kind == "reset":
+                use_desync = False
+            if kind == "use":
+                # the consumers' answer (regenerated handleConn head / UDP ingress task on the stored bytes).  A lookup whose
+                # outcome the host's scheduling decided (hand-off age at the 10 s boundary) may have filled the routing
+                # cache differently from the model: the rest of that scenario's `use` ops is not compared
+                merged.append(rt[i])
+                if rt[i] == "use=skip-boundary":
+                    use_desync = True
+                if use_desync or rt[i] == "use=unavailable":
+                    skip.add(i)
+                    n_use_skipped += 1
+                else:
+                    n_use += 1
+                    if " fresh=0 " in rt[i] and not rt[i].startswith("use=253:"):
+                        n_use_cached += 1
+                continue
             if kind in GO_ANSWERED:
                 merged.append(go[i])
             elif kind == "const":
@@ -259,6 +374,9 @@ def run(ctx):
                     "dump": "map contents differ from the model",
                     "connkey": "outboundConnectivityMapKey differs from the slot wan_outbound_is_alive reads in the model",
                     "jan": "the userspace janitors (real cleanupConnStateMapBeforeLocked / cleanupRoutingHandoffMapBeforeLocked on the stored bytes) delete other entries than the model's janitor",
+                    "use": "the record the control plane works with (head of handleConn / UDP ingress task with its per-endpoint routing cache, regenerated from source, on the bytes the kernel program stored) differs from the model's consumer",
+                    "peer": "tproxy_dae0peer_ingress (the consumer of cb[] on dae's veth peer) differs from the proved model",
+                    "d0": "tproxy_dae0_ingress (the consumer of redirect_track: replies of dae to a captured client) differs from the proved model",
                     "hoexp": "routingHandoffExpired differs from the model"}.get(kind, "implementation differs from the proved model")
             queue(2, f"{what} at {n}:{ln}: impl `{im[:300]}` model `{mo[:300]}`",
                        {"stream": n, "line": ln, "op": op[:6000], "impl": im[:6000], "model": mo[:6000],
@@ -309,6 +427,14 @@ def run(ctx):
                     branch["frame.rewritten"] += 1
                 if "SOCKET-REF-LEAK" in cl[i]:
                     queue(1, f"socket reference not released ({n}:{i+1}): {cl[i][:200]}", {"stream": n, "line": i + 1, "op": op})
+            elif kind == "peer":
+                n_peer += 1
+                n_peer_ok += cl[i].startswith("v=0 ")
+                distinct.add(op + "|" + cl[i])
+            elif kind == "d0":
+                n_d0 += 1
+                n_d0_redirect += cl[i].startswith("v=7 ")
+                distinct.add(op)
             elif kind == "retr":
                 n_retr += 1
                 branch["retr." + ("found" if rt[i].startswith("rr=") and rt[i][3].isdigit() else rt[i][3:15])] += 1
@@ -320,7 +446,7 @@ def run(ctx):
                 _, _, sid, tag = op.split(" ")[:4]
                 cur = (sid, tag)
                 blocks[cur] = []
-            elif cur is not None and op.split(" ", 1)[0] in ("frame", "retr", "dump", "jan"):
+            elif cur is not None and op.split(" ", 1)[0] in ("frame", "retr", "dump", "jan", "peer", "d0"):
                 blocks[cur].append(i)
         for (sid, tag), idxs in blocks.items():
             if tag != "A" or (sid, "B") not in blocks:
@@ -381,6 +507,22 @@ def run(ctx):
         if len(w) == 4:
             # informational (design note, observation "reverse SYN"; theorem reverse_syn_restarts_tracking_as_wan_originated)
             wit["reverse-syn-restarts (observation)"] = [v(x[1]) for x in w]
+        w = per.get("mac-packers", [])
+        if w:
+            vs = [v(x[1]) for x in w]
+            wit["mac-packers"] = "".join(x or "?" for x in vs)
+            callers = ["do_tproxy_lan_ingress", "do_tproxy_wan_egress_tcp", "do_tproxy_wan_egress_udp"]
+            if len(vs) != 21:
+                queue(2, f"witness mac-packers: expected 21 frames, got {len(vs)} (generator bug)", {})
+            else:
+                for ci, caller in enumerate(callers):
+                    got = vs[7 * ci:7 * ci + 7]
+                    if got != ["2"] + ["0"] * 6:
+                        queue(0, f"source-MAC rule not applied to exactly the MAC it names at the route() call of {caller}: rule "
+                                 f"`mac(02:a1:b2:c3:d4:e5) -> block; fallback: direct`, new flows from that MAC and from the six MACs "
+                                 f"differing in one byte got verdicts {got} (expected ['2','0','0','0','0','0','0']): the mac_be packing "
+                                 "at this caller does not produce the value the LPM key of a MAC rule holds",
+                              {"ops": [o for o, _ in w[7 * ci:7 * ci + 7]], "impl": [c for _, c in w[7 * ci:7 * ci + 7]], "replay": replay_cmd})
         w = per.get("synack-parse-paths", [])
         if len(w) == 5:
             wit["synack-parse-paths"] = [w[0][1][:40], v(w[3][1]), v(w[4][1])]
@@ -405,6 +547,9 @@ def run(ctx):
     ctx.cov["retr_skipped_boundary"] = n_retr_skipped
     ctx.cov["diagnostic_only_differences"] = n_diag_diffs
     ctx.cov["janitor_rounds"] = {"rounds": n_jan, "entries_deleted": n_jan_deleted}
+    ctx.cov["handover_consumers"] = {"dae0peer_ingress": n_peer, "dae0peer_accepted": n_peer_ok, "dae0_ingress": n_d0,
+                                     "dae0_ingress_returned_to_origin": n_d0_redirect, "relay_record_lookups": n_use,
+                                     "relay_record_from_cache": n_use_cached, "relay_record_not_compared": n_use_skipped}
     ctx.assumptions = [
         "frames, rule programs, connectivity states, clocks and interleavings are generated (seeded): what was not generated was not compared",
         "the parse-path choice (linear length, bpf_skb_pull_data result), socket cookie and the one-entry socket table are inputs of a frame (oracles)",
@@ -417,4 +562,4 @@ def run(ctx):
              "overflow counters) with the Lean step function; plus parse ops (fast / slow / combined parser on one frame and linear "
              "length), retr ops (real RetrieveRoutingResult on the stored bytes through kernel maps) and twin scenarios replayed with "
              "different parse paths; distinct_nontrivial = distinct frame/parse op lines",
-        evaluations=n_frames + n_parse + n_retr, distinct=len(distinct))
+        evaluations=n_frames + n_parse + n_retr + n_peer + n_d0 + n_use, distinct=len(distinct))
